@@ -13,4 +13,12 @@ CLAIMED = {
    note=COMMON_NOTE + ' Hypotheses train_ok/curve_ok (positive sorted tables) are checked on every generated mechatronics.',
    technique='Coq proof over translated kernels (Q arithmetic, induction on loop fuel) + differential correspondence of the step model'),
 }
+CLAIMED['C08'] = dict(
+   text=('Proved with no bound on sizes or history length: Inv_idx (each of the eight index maps lists exactly the ids of the entities at that cell / under that search '
+         'cell, no empty and no duplicated entries) holds in every state built by adding entities to the empty state and is preserved by EVERY operation: raw add / '
+         'modify / remove / pop of all four kinds and every step operation (instructions from any controller, vehicle updates, admissions, cancellations, prices, drivers, tick) — '
+         'the latter through the frame theorem step_op_reach (every model function writes only through modify_*/add_request/remove_request). Stations/bases cannot move (modify_* = Err). '
+         'The model of simulation_state_ops/dict_ops is hand-written and tied to /repo by correspondence on raw-op and step histories.'),
+   note=COMMON_NOTE + ' h3_to_parent is an arbitrary function in the theorem; geofence constant True.',
+   technique='Coq proof: inductive invariant over all operations + frame theorem; differential correspondence incl. raw-op histories')
 NOT_CLAIMED = {}
